@@ -29,7 +29,7 @@ func (eng) Rule() string {
 		"assignments of vetoes, plus vetoes of non-auto handlers (Exit, AnyEnter); the unvetoed and the single-veto runs are repeated with " +
 		"the AnyState handler of every non-auto transition queueing an arg-less Add of exactly the auto mutation's candidate set. The tracer sequence is judged: next-is-auto " +
 		"with exactly the expected called set, no auto after auto/unchanged/health, per-state outcome with excuses, a state rejected by " +
-		"its own handler not active afterwards. " +
+		"its own handler not active afterwards, a transition flagged auto calls Auto states only; runs with a one-shot handler panic inside an auto transition. " +
 		"Evaluation = one transition judged; distinct non-trivial = distinct (schema, veto table, history prefix) whose " +
 		"transition was an auto mutation or triggered one."
 }
